@@ -561,7 +561,7 @@ def run(ctx):
     n = ctx.n(250, 5000)
     for k in range(n):
         big_tuple = ctx.rng.random() < 0.15
-        prog = gen_comp.gen_program(ctx.rng, allow_tuple=True)
+        prog = gen_comp.gen_program(ctx.rng, allow_tuple=True, allow_unordered_array=True)
         one_case(ctx, prog)
         if ctx.rng.random() < 0.2:
             # the same composition after one of the library's own derivations: what the derived model advertises
